@@ -91,7 +91,7 @@ class Result:
 
 def run_tlc(wd, module, cfg, workers=16, args=(), timeout=3600, env=None, java_opts=()):
     meta = tempfile.mkdtemp(prefix='meta-', dir=wd)
-    cmd = ['java', '-XX:+UseParallelGC', '-Xss16m'] + list(java_opts) + ['-cp', JAR + ':' + CM, 'tlc2.TLC',
+    cmd = ['java', '-XX:+UseParallelGC', '-Xss16m', '-Djava.io.tmpdir=' + meta] + list(java_opts) + ['-cp', JAR + ':' + CM, 'tlc2.TLC',
            '-workers', str(workers), '-metadir', meta, '-noGenerateSpecTE',
            '-config', cfg] + list(args) + [module]
     e = dict(os.environ)
